@@ -25,7 +25,7 @@ ASSUMPTIONS = [
   "two overlapping sibling slices written by the SAME block are not generated (pymtl3 rejects them although there is one "
   "driver; the property's defect list does not cover that shape either way)",
 ]
-QUICK_S = 80
+QUICK_S = 240
 THOROUGH_S = 1200
 
 R = rtl_gen.mkref
